@@ -735,6 +735,26 @@ pub async fn start_replication_thread(
                         )
                     }
 
+                    // A resolved conflict writes the key like any other update: without a record a node
+                    // that was away when the arbiter answered is never sent the resolved value
+                    Request::Resolve {
+                        opp_id: _,
+                        db_name,
+                        key,
+                        value: _,
+                        version: _,
+                    } => {
+                        let db_id = get_db_id(db_name, &dbs);
+                        let key_id = generate_key_id(key, &dbs, &mut invalidate_stream);
+                        Oplog::try_write_op_log(
+                            &mut op_log_stream,
+                            db_id,
+                            key_id,
+                            &ReplicateOpp::Update,
+                            op_log_id_in,
+                        )
+                    }
+
                     // Even if not in op log we need to return a valid id so the message can be ack
                     Request::SetPrimary { name: _ } => Ok(op_log_id_in), //Election events won't be registed in OpLog
                     _ => {
